@@ -269,7 +269,9 @@ def scalar_binop(interp, op, a, b):
             raise eng.Unsupported("floor division / modulo on reals")
         if ctx.decide(wrap(y == 0)):
             raise eng.PyRaise(ZeroDivisionError, ("integer division or modulo by zero",))
-        return wrap(floordiv(x, y) if op == "FloorDiv" else pymod(x, y))
+        if z3.is_int_value(z3.simplify(y)):
+            return wrap(floordiv(x, y) if op == "FloorDiv" else pymod(x, y))
+        return divmod_sym(ctx, x, y)[0 if op == "FloorDiv" else 1]
     if op == "Pow":
         if isinstance(b, int) and 0 <= b <= 6:
             r = z3.RealVal(1) if k == "real" else Z(1)
@@ -1648,3 +1650,21 @@ def _dict(interp, *args, **kw):
     if not args:
         return dict(**kw)
     raise eng.Unsupported("dict() of " + type(args[0]).__name__)
+
+
+def divmod_sym(ctx, a, b):
+    """Python (a // b, a % b) for a symbolic divisor b != 0, by the defining
+    property a == b*q + r with r between 0 and b (exclusive, sign of b): the
+    quotient and remainder are fresh integers, so the obligations stay in
+    polynomial arithmetic instead of z3's div/mod.  The same (a, b) on one path
+    yields the same pair."""
+    store = ctx.__dict__.setdefault("_divmod", {})
+    key = (z3.simplify(a).get_id(), z3.simplify(b).get_id())
+    if key in store:
+        return store[key]
+    q = z3.Int(ctx._name("q"))
+    r = z3.Int(ctx._name("r"))
+    ctx.assume(a == b * q + r)
+    ctx.assume(z3.If(b > 0, z3.And(r >= 0, r < b), z3.And(r <= 0, r > b)))
+    store[key] = (wrap(q), wrap(r))
+    return store[key]
